@@ -216,6 +216,25 @@ func c16Boundary() [][]byte {
 		}
 	}
 	out = append(out, append(append([]byte(nil), out[3]...), out[10]...))
+	// message lengths around and beyond 2^16: 255 fields of 255 bytes plus 2 / 3 / 255 developer fields of 255 bytes
+	// (1 + 65535 = 65536, 65791, and the maximum 130051), followed by a small message so that a wrong length shows as bad framing
+	for _, nd := range []int{2, 3, 255} {
+		rec := append([]byte(nil), pre...)
+		rec = append(rec, 0x62, 0, 0, 0x10, 0xFF, 255)
+		for i := 0; i < 255; i++ {
+			rec = append(rec, byte(i), 255, 13)
+		}
+		rec = append(rec, byte(nd))
+		for i := 0; i < nd; i++ {
+			rec = append(rec, 0, 255, 0)
+		}
+		rec = append(rec, 0x02)
+		for i := 0; i < (255+nd)*255; i++ {
+			rec = append(rec, byte(7*i+3))
+		}
+		rec = append(rec, 0x43, 0, 0, 0x11, 0xFF, 1, 0, 1, 2, 0x03, 0x2A)
+		out = append(out, rawSeq(rec))
+	}
 	return out
 }
 
